@@ -4,6 +4,7 @@ package ipoe
 
 import (
 	"context"
+	"encoding/binary"
 	"encoding/json"
 	"fmt"
 	"net"
@@ -13,6 +14,7 @@ import (
 	"testing"
 	"time"
 
+	"github.com/google/gopacket/layers"
 	"github.com/veesix-networks/osvbng/pkg/component"
 	"github.com/veesix-networks/osvbng/pkg/dataplane"
 	"github.com/veesix-networks/osvbng/pkg/events"
@@ -136,6 +138,33 @@ func (p *c12IPoE) checkpointSync(i int) {
 		p.e.log.add("CKSERR")
 	}
 }
+func (s *c12SB) IPoESetSessionIPv4Async(sw uint32, clientIP net.IP, isAdd bool, cb func(error)) {
+	cb(s.set(sw, "4", c12V4Idx(clientIP), isAdd))
+}
+
+func (p *c12IPoE) v4of(i int) net.IP {
+	s := p.get(i)
+	s.mu.Lock()
+	defer s.mu.Unlock()
+	return s.IPv4
+}
+
+// bind4 hands the provider's DHCPv4 ACK to the real handler (i < 0: capability probe)
+func (p *c12IPoE) bind4(i int, a net.IP, lease int) bool {
+	if i < 0 {
+		return true
+	}
+	lt := make([]byte, 4)
+	binary.BigEndian.PutUint32(lt, uint32(lease))
+	s := p.get(i)
+	pkt := &dataplane.ParsedPacket{MAC: s.MAC, OuterVLAN: s.OuterVLAN, InnerVLAN: s.InnerVLAN,
+		DHCPv4: &layers.DHCPv4{YourClientIP: a, Options: layers.DHCPOptions{{Type: 51, Length: 4, Data: lt}}}}
+	if err := p.c.handleAck(s, pkt); err != nil {
+		p.e.log.add("ACKERR")
+	}
+	return true
+}
+
 func (p *c12IPoE) release(i int) {
 	p.c.handleSubscriberTerminate(events.Event{Data: &events.SubscriberTerminateEvent{SessionID: c12SessID(i), Reason: "c12"}})
 }
